@@ -35,6 +35,7 @@ type State struct {
 	lockLog  []string
 	spawned  []string
 	called   map[string]bool // names of the callees called so far on this path (spec builtin called(name))
+	cells    map[string]string // private local variable cells of the function under verification: ref -> heap class
 	oldHeap  map[string]string // if set: what old() denotes on this path (the state after the last interference point)
 	ncalls   map[string]int  // number of calls of each callee on this path (spec builtin callcount(name))
 	lastRet  map[string]Val  // result of the most recent call of each callee on this path (spec builtin lastresult(name))
@@ -75,6 +76,10 @@ func (st *State) clone() *State {
 	n.spawned = append([]string{}, st.spawned...)
 	n.called = map[string]bool{}
 	n.lastRet = map[string]Val{}
+	n.cells = map[string]string{}
+	for k, v := range st.cells {
+		n.cells[k] = v
+	}
 	n.ncalls = map[string]int{}
 	for k, v := range st.ncalls {
 		n.ncalls[k] = v
@@ -180,12 +185,29 @@ func shortClass(c string) string {
 func (st *State) snapshot() map[string]string { return copyMap(st.heap) }
 
 // havocAll forgets every mutable heap class (new epoch), keeping immutable field classes.
-func (st *State) havocAll() {
+func (st *State) havocAll() { st.havocAllExcept(nil) }
+
+// havocAllExcept forgets every mutable heap class except the fields of the listed struct types.
+func (st *State) havocAllExcept(except []string) {
 	*st.ctr++
 	nh := map[string]string{"\x00epoch": fmt.Sprintf("%s.%d", st.heap["\x00epoch"], *st.ctr)}
 	for c := range st.x.w.classes {
-		if st.x.w.classImm[c] {
+		keep := st.x.w.classImm[c]
+		for _, t := range except {
+			if strings.HasPrefix(c, t+".") {
+				keep = true
+			}
+		}
+		if keep {
 			nh[c] = st.hget(c)
+		}
+	}
+	// private cells of local variables (captured by closures that only read them) are out of reach of callees
+	type kept struct{ ref, class, old string }
+	var cells []kept
+	for ref, c := range st.cells {
+		if _, still := nh[c]; !still {
+			cells = append(cells, kept{ref, c, st.hget(c)})
 		}
 	}
 	st.heap = nh
@@ -196,6 +218,10 @@ func (st *State) havocAll() {
 		}
 	}
 	st.last = nl
+	sort.Slice(cells, func(i, j int) bool { return cells[i].ref < cells[j].ref })
+	for _, c := range cells {
+		st.assume("(= (select " + st.hget(c.class) + " " + c.ref + ") (select " + c.old + " " + c.ref + "))")
+	}
 }
 
 func (st *State) havocClass(class string) {
